@@ -25,10 +25,11 @@ EVEN, ODD, MIXED = "even", "odd", "mixed"
 class Gauge:
     """(degree, parity) of an expression in one designated field of self"""
 
-    def __init__(self, fi: FunctionInfo, field: str, field_degree: int):
+    def __init__(self, fi: FunctionInfo, field: str, field_degree: int, q_text: Optional[str] = None):
         self.fi = fi
         self.q = field
         self.qd = field_degree
+        self.q_text = q_text  # designate an arbitrary expression (e.g. `a.dv`) instead of a field of self
         self.asg = assigned_names(fi.node)
         self.sn = fi.self_name
 
@@ -45,6 +46,8 @@ class Gauge:
         return e
 
     def is_q(self, e) -> bool:
+        if self.q_text is not None:
+            return isinstance(e, ast.Attribute) and txt(e) == self.q_text
         return isinstance(e, ast.Attribute) and isinstance(e.value, ast.Name) and e.value.id == self.sn and e.attr == self.q
 
     def g(self, e: ast.AST) -> Tuple[Optional[int], str]:
@@ -110,6 +113,15 @@ class Gauge:
                     return gs[0]
                 return (None if any(x[0] != 0 for x in gs) else 0, MIXED)
             if isinstance(fn, ast.Name):
+                b = self.fi.resolve(fn.id)
+                if b is not None and b.kind == "class" and b.target.name in ("Line", "Plane", "HalfLine"):
+                    # an object built from a direction denotes the same set for any non-zero multiple of it
+                    return (0, EVEN)
+                if b is not None and b.kind == "func" and b.target.module.name.startswith("Geometry3D.calc") \
+                        and all(not self.is_q(self.resolve(a)) for a in e.args):
+                    # calc functions applied to whole objects: representation-independent by their own properties
+                    if all(self.g(a) in ((0, EVEN),) or not any(self.is_q(x) for x in ast.walk(self.resolve(a))) for a in e.args):
+                        return (0, EVEN)
                 if fn.id == "round" and e.args:
                     return self.g(e.args[0])  # odd-symmetric, keeps homogeneity class
                 if fn.id == "abs" and e.args:
@@ -176,7 +188,7 @@ class Gauge:
 def hashed_components(fi: FunctionInfo) -> List[ast.AST]:
     rets = [r for r in walk_local(fi.node) if isinstance(r, ast.Return)]
     if len(rets) != 1:
-        raise AnalysisError("%s: expected one return" % fi.short)
+        raise AnalysisError("%s: __hash__ has %d return statements; the hashed components cannot be identified" % (fi.short, len(rets)))
     v = rets[0].value
     if isinstance(v, ast.Call) and isinstance(v.func, ast.Name) and v.func.id == "hash" and len(v.args) == 1:
         inner = v.args[0]
@@ -195,13 +207,44 @@ GAUGES = {
 }
 
 
-def r84(ctx, res):
+def r88_pure(ctx, res) -> set:
+    """__eq__ / __hash__ of a mutable object must be recomputed from its current state: a hash (or equality)
+    that stores its result on the object goes stale after move(), coordinate assignment or a tolerance change,
+    and equality stops tracking the point set"""
+    ef = ctx.effects
+    stale = set()
+    n = 0
+    for c in ctx.repo.classes():
+        for name in ("__eq__", "__hash__", "_get_point_hash_sum", "_get_polygon_hash_sum", "hash_with_normal", "eq_with_normal", "oriented_hash"):
+            m = c.methods.get(name)
+            if m is None:
+                continue
+            n += 1
+            s_ = ef.summ[m.qual]
+            direct = {r: w for r, w in s_.mut.items() if not w[1].startswith("call of ") or ".move {" in w[1] or "__setitem__ {" in w[1]}
+            ok = not direct and not s_.gwrite
+            res.ob("R8.8", m.where(), "%s stores nothing" % m.short, ok,
+                   "recomputed from the current state on every call" if ok else "writes %s" % sorted(direct))
+            for r, (where, what) in sorted(direct.items()):
+                stale.add(m.qual)
+                res.violation("R8.8", m, m.node,
+                              "%s stores state on the object (%s at %s): the object is mutable (move, coordinate assignment, tolerance "
+                              "change), so a remembered hash / comparison result no longer corresponds to the current point set"
+                              % (m.short, what[:70], where), construct="%s writes %s" % (m.short, r))
+    ctx.require(res, "R8.8", n, 18, "eq/hash methods")
+    return stale
+
+
+def r84(ctx, res, stale=frozenset()):
     repo = ctx.repo
     n = 0
     for cname, gauges in GAUGES.items():
         h = repo.cls(cname).lookup("__hash__")
         if h is None or h.cls.name != cname:
             raise AnalysisError("%s.__hash__ not found" % cname)
+        if h.qual in stale:
+            res.note("%s.__hash__ stores its value (reported by R8.8); its components are not analysed for gauge invariance" % cname)
+            continue
         comps = hashed_components(h)
         for field, fdeg, need0, need_even, reason in gauges:
             G = Gauge(h, field, fdeg)
@@ -310,6 +353,8 @@ def r84(ctx, res):
     # the polygon / polyhedron hashes use the aggregates (not an ordered traversal)
     for cname, helpers in (("ConvexPolygon", {"_get_point_hash_sum"}), ("ConvexPolyhedron", {"_get_polygon_hash_sum", "_get_point_hash_sum"})):
         h = repo.cls(cname).lookup("__hash__")
+        if h.qual in stale:
+            continue
         comps = hashed_components(h)
         n += 1
         ordered = [c for c in comps for x in ast.walk(c) if isinstance(x, ast.Attribute) and isinstance(x.value, ast.Name)
@@ -321,7 +366,7 @@ def r84(ctx, res):
         if not ok:
             res.violation("R8.4", h, h.node, "%s.__hash__ must depend on its vertices/faces only through the order-free aggregates %s"
                           % (cname, sorted(helpers)), construct="%s.__hash__ aggregates" % cname)
-    ctx.require(res, "R8.4", n, 10, "gauge obligations")
+    ctx.require(res, "R8.4", n + 2 * len(stale), 10, "gauge obligations")
 
 
 def r81_r83(ctx, res):
@@ -489,7 +534,8 @@ def run(ctx, res):
         "NOT decided: that unequal sets compare unequal, rounding-boundary effects."
     )
     r81_r83(ctx, res)
-    r84(ctx, res)
+    stale = r88_pure(ctx, res)
+    r84(ctx, res, stale)
     r86_r87(ctx, res)
     r85_support_point(ctx, res)
     res.undecided_ob("objects denoting different sets compare unequal; rounding-boundary effects; int/Fraction mixing")
